@@ -18,6 +18,5 @@ for d in $dirs; do
   find "$wt" -name __pycache__ -prune -exec rm -rf {} + 2>/dev/null
   git -C /repo worktree remove --force "$wt"
 done
-# evidence and replay files were overwritten by the runs against the changed trees: rewrite them from the unchanged tree
-for id in $(echo $ids | tr " " "\n" | sort -u); do ./check $id --tier ${TIER:-quick} >/dev/null 2>&1 || { echo "$id: not clean on the unchanged tree"; fail=1; }; done
+# (runs against another tree write their evidence and replay files to /root/scratch/hv_other_tree_output, not here)
 exit $fail
